@@ -35,6 +35,10 @@ SEPS = [",", ", ", ",\t", ",  ", " , ", "\t,\t", " ,", ",\t "]  # optional white
 SEP_SIZE = 6
 
 
+# sizes at which the number of digits changes: a position, a last position or a suffix length equal to size-1, size, size+1
+WIDTH_SIZES = [9, 10, 11, 99, 100, 101, 999, 1000, 1001, 10000]
+
+
 def all_specs(size):
     nums = range(0, size + 2)
     out = [("fl", a, b) for a in nums for b in nums]
@@ -60,6 +64,7 @@ def shards(tier, seed):
     out.append(("big",))
     out += [("seps", i) for i in range(len(SEPS))]
     out.append(("nospec",))
+    out += [("width", sz) for sz in WIDTH_SIZES]
     return out
 
 
@@ -178,6 +183,19 @@ def run_shard(desc, tier):
                     txt = "bytes=" + ",".join((str(x[1]).zfill(pad) + "-" + str(x[2]).zfill(pad)) if x[0] == "fl" else (str(x[1]).zfill(pad) + "-" if x[0] == "f" else "-" + str(x[1]).zfill(pad)) for x in specs)
                     judge_grammar(specs, size, txt, r)
         r.sample({"header": "bytes=", "sizes": [0, 1, 5, 10, 768], "padded": "bytes=0000-0001"})
+    elif kind == "width":
+        size = desc[1]
+        nums = sorted({0, 1, 5, size - 2, size - 1, size, size + 1, size * 10, size * 10 + 5} | {10 ** k + d for k in range(0, len(str(size)) + 1) for d in (-1, 0, 1) if 10 ** k + d >= 0})
+        specs = [("fl", a, b) for a in nums for b in nums] + [("f", a) for a in nums] + [("s", a) for a in nums]
+        texts = [RR.spec_text(x) for x in specs]
+        for a in range(len(specs)):
+            judge_grammar([specs[a]], size, "bytes=" + texts[a], r)
+        few = [i for i, x in enumerate(specs) if all(n in (0, 5, size - 1, size, size + 1) for n in x[1:])]
+        for a in few:
+            for b in range(len(specs)):
+                judge_grammar([specs[a], specs[b]], size, "bytes=" + texts[a] + "," + texts[b], r)
+                judge_grammar([specs[b], specs[a]], size, "bytes=" + texts[b] + ", " + texts[a], r)
+        r.sample({"size": size, "numbers": nums[:12], "header": f"bytes=-{size}"})
     elif kind == "chain":
         for n in range(4, len(CHAIN) + 1):
             for sub in itertools.combinations(CHAIN, n):
